@@ -99,8 +99,23 @@ fn start() -> IpNumber {
     IpNumber(START.load(std::sync::atomic::Ordering::Relaxed))
 }
 
+thread_local! {
+    /// the fields of the last length error a decoder returned (layer, required, available, source, offset): the reader's report is
+    /// compared with the slice decoder's report on the same bytes
+    static LAST_LEN: std::cell::RefCell<Vec<Value>> = std::cell::RefCell::new(vec![]);
+}
+fn note_len(e: &crate::errp::ErrP) {
+    LAST_LEN.with(|l| *l.borrow_mut() = vec![json!(e.layer), json!(crate::errp::cap(e.req)), json!(crate::errp::cap(e.len)), json!(e.src), json!(crate::errp::cap(e.off))]);
+}
+fn take_len() -> Vec<Value> {
+    LAST_LEN.with(|l| std::mem::take(&mut *l.borrow_mut()))
+}
+
 /// error class: "len", "io" or "con:<canonical name>"
 fn con(e: crate::errp::ErrP) -> String {
+    if e.kind == "len" {
+        note_len(&e);
+    }
     match e.kind {
         "len" => "len".to_string(),
         "con" => format!("con:{}", e.name),
@@ -236,7 +251,7 @@ impl Any {
             "icmp6" => Icmpv6Header::read(r).map(Any::Icmp6).map_err(io),
             "iph" => IpHeaders::read(r).map(|(h, _)| Any::Iph(h)).map_err(|e| match e {
                 ip::HeaderReadError::Io(_) => "io".into(),
-                ip::HeaderReadError::Len(_) => "len".into(),
+                ip::HeaderReadError::Len(l) => con(l.errp()),
                 ip::HeaderReadError::Content(c) => con(c.errp()),
             }),
             "ext6" => Ipv6Extensions::read(r, start()).map(|(h, n)| Any::Ext6(h, start().0, n.0)).map_err(|e| match e {
@@ -356,7 +371,10 @@ pub fn run_case(id: &str, c: &Value) -> Value {
     START.store(first, std::sync::atomic::Ordering::Relaxed);
     let r = catch_unwind(AssertUnwindSafe(|| {
         let sk = if ty == "ext6" { skips(&b, IpNumber(first)) } else { json!({"has": 0, "skippable": -1, "all": [], "one": [], "all_r": [], "one_r": []}) };
+        take_len();
         let sl = Any::from_slice(&ty, &b);
+        let slen = take_len();
+        let mut rlen: Vec<Value> = vec![];
         let (sl_k, sl_re, sl_used) = match &sl {
             Ok((h, used)) => ("ok".to_string(), h.bytes(), *used as i64),
             Err(e) => (e.clone(), vec![], -1),
@@ -366,6 +384,10 @@ pub fn run_case(id: &str, c: &Value) -> Value {
         for k in 0..=b.len() {
             let mut r = FailReader::new(&b, k);
             let res = Any::read(&ty, &mut r);
+            let l = take_len();
+            if k == b.len() {
+                rlen = l;
+            }
             let pos = r.c.position() as i64;
             match res {
                 Ok(h) => reads.push(json!([k, "ok", pos, if h.bytes() == sl_re { 1 } else { 0 }])),
@@ -412,7 +434,7 @@ pub fn run_case(id: &str, c: &Value) -> Value {
                 }
             }
         }
-        json!({"ev": "io", "id": id, "type": ty, "bytes": b, "start": first, "skips": sk, "slice": {"k": sl_k, "re": sl_re, "used": sl_used}, "reads": reads, "writes": writes,
+        json!({"ev": "io", "id": id, "type": ty, "bytes": b, "start": first, "skips": sk, "slice": {"k": sl_k, "re": sl_re, "used": sl_used}, "slen": slen, "rlen": rlen, "reads": reads, "writes": writes,
                "slices": slices, "limited": limited})
     }));
     r.unwrap_or_else(|_| json!({"ev": "panic", "id": id, "type": ty}))
